@@ -144,4 +144,27 @@ theorem C06_taintLoop_count_exact (o : Oracle) (nowSec : Int) (effect : String) 
   have h2 := C06_source_taint_exact_failures (0 + need) false (taintOutcomes o nowSec effect k cs) 0 (by omega)
   rw [h1, h2]; omega
 
+/-- The model's dry taint loop counts `min(need, candidates)`. -/
+theorem taintLoop_dry_count (o : Oracle) (nowSec : Int) (effect : String) (cs : List Node) :
+    ∀ (k need : Nat) (tr : List String),
+      ((taintLoop o true nowSec effect k cs need tr).val.count : Int) = min (need : Int) (cs.length : Nat) := by
+  induction cs with
+  | nil => intro k need tr; simp [taintLoop]; omega
+  | cons c cs ih =>
+    intro k need tr
+    by_cases hn : need = 0
+    · simp [taintLoop, hn]; omega
+    · have := ih k (need - 1) (tr ++ [c.name])
+      simp only [taintLoop, hn, if_false, if_true, List.length_cons]
+      omega
+
+/-- **Tie B, the loop of `taintOldestN` in dry mode (count).** The model's dry `taintLoop` counts what the translated loop, run
+    with `dry = true`, counts on ANY outcomes, one per candidate (no write is made, so none can fail). -/
+theorem gen_taintLoop_count_eq_dry (o : Oracle) (nowSec : Int) (effect : String) (cs : List Node) (k need : Nat) (tr : List String)
+    (outcomes : List Bool) (hlen : outcomes.length = cs.length) :
+    ((taintLoop o true nowSec effect k cs need tr).val.count : Int) =
+      runLoop (fun c e => Gen.taintStep c need true e) 0 outcomes := by
+  rw [taintLoop_dry_count, C06_source_taint_exact need true outcomes 0 (by omega) (fun _ _ => Or.inl rfl), hlen]
+  omega
+
 end Esc.P
